@@ -118,10 +118,30 @@ def td_us(x):
     return (t if t is not None else z3.IntVal(c)), c
 
 
+_BV_OF = {}  # id of a (simplified) Int term -> (term, 64-bit vector it is the signed value of)
+
+
+def _bv_of(term):
+    ent = _BV_OF.get(term.get_id())
+    return ent[1] if ent is not None and ent[0].eq(term) else None
+
+
+def _cmp_terms(f, t1, t2):
+    """f(t1, t2) as a z3 Bool; stays in bit-vector arithmetic when one side is a registered 64-bit value and the other a constant"""
+    b1, b2 = _bv_of(t1), _bv_of(t2)
+    if b1 is not None and z3.is_int_value(t2) and -(2**63) <= t2.as_long() < 2**63:
+        return f(b1, z3.BitVecVal(t2.as_long(), 64))
+    if b2 is not None and z3.is_int_value(t1) and -(2**63) <= t1.as_long() < 2**63:
+        return f(z3.BitVecVal(t1.as_long(), 64), b2)
+    return f(t1, t2)
+
+
 def mktd(cls, term, conc):
     term = z3.simplify(term) if isinstance(term, z3.ExprRef) else z3.IntVal(term)
     lim = MAX_TD_DAYS * DAY
-    if branch(z3.Or(term < -lim, term >= lim + DAY), not (-lim <= conc < lim + DAY)):
+    if _bv_of(term) is not None:
+        pass  # a 64-bit value cannot exceed 999999999 days
+    elif branch(z3.Or(term < -lim, term >= lim + DAY), not (-lim <= conc < lim + DAY)):
         raise OverflowError("days=%d; must have magnitude <= 999999999" % (conc // DAY))
     o = RTD.__new__(cls, days=conc // DAY, seconds=(conc % DAY) // US, microseconds=conc % US)
     if not z3.is_int_value(term):
@@ -190,7 +210,14 @@ class STimedelta(RTD, metaclass=_Meta):
         t = s._sym()
         if t is None:
             return RTD.total_seconds(s)
-        return SRat(t, US, td_us(s)[1])
+        c = td_us(s)[1]
+        ent = _BV_OF.get(t.get_id())
+        if ent is not None and ent[0].eq(t) and branch(z3.And(ent[1] >= -(2**53), ent[1] <= 2**53), abs(c) <= 2**53):
+            # faithful binary floating point: the integer converts exactly and int/int true division is the
+            # correctly rounded quotient, which is what fp.div computes
+            from .core import F64, RNE, fp_val, mkf, SFloat
+            return mkf(SFloat, z3.fpDiv(RNE, z3.fpSignedToFP(RNE, ent[1], F64), fp_val(1e6)), RTD.total_seconds(s))
+        return SRat(t, US, c)
 
     def _pin(s, op="timedelta concretised"):
         t = s._sym()
@@ -277,7 +304,7 @@ class STimedelta(RTD, metaclass=_Meta):
         (t1, c1), (t2, c2) = td_us(s), td_us(o)
         if not td_is_sym(s) and not td_is_sym(o):
             return f(c1, c2)
-        return SBool(f(t1, t2), f(c1, c2))
+        return SBool(_cmp_terms(f, t1, t2), f(c1, c2))
 
     def __eq__(s, o):
         return s._cmp(o, lambda a, b: a == b)
@@ -489,6 +516,10 @@ def make_datetime(eus, off_min=None, cls=None):
 
 
 def make_timedelta(us):
+    bv = _attr(us, int, "_bv")
+    if bv is not None and bv.size() == 64:
+        t = z3.simplify(tm(us))
+        _BV_OF[t.get_id()] = (t, bv)
     return mktd(STimedelta, tm(us), iv(us))
 
 
@@ -521,16 +552,23 @@ class SDatetime(RD, metaclass=_Meta):
         ts, cs = [tm(f) for f in fields], [iv(f) for f in fields]
         y, m, d, H, M, S, u = ts
         cy, cm, cd, cH, cM, cS, cu = cs
-        if branch(z3.Or(y < 1, y > 9999), not 1 <= cy <= 9999):
-            raise ValueError(f"year {cy} is out of range")
-        if branch(z3.Or(m < 1, m > 12), not 1 <= cm <= 12):
-            raise ValueError("month must be in 1..12")
-        if branch(z3.Or(d < 1, d > days_in_month(y, m)), not 1 <= cd <= _c_days_in_month(cy, cm)):
-            raise ValueError("day is out of range for month")
+        same_date = all(t is not None for t in tags[:3]) and [t[1] for t in tags[:3]] == ["year", "month", "day"] and \
+            all(t[0].eq(tags[0][0]) for t in tags[:3]) and tags[0][0].sort() == z3.IntSort()
+        if same_date:
+            # the date fields of one source (e.g. replace(microsecond=0)): same day number (lemma civil-roundtrip)
+            days = tags[0][0] / DAY
+        else:
+            if branch(z3.Or(y < 1, y > 9999), not 1 <= cy <= 9999):
+                raise ValueError(f"year {cy} is out of range")
+            if branch(z3.Or(m < 1, m > 12), not 1 <= cm <= 12):
+                raise ValueError("month must be in 1..12")
+            if branch(z3.Or(d < 1, d > days_in_month(y, m)), not 1 <= cd <= _c_days_in_month(cy, cm)):
+                raise ValueError("day is out of range for month")
+            days = days_from_civil(y, m, d)
         for t, c, hi, nm in ((H, cH, 23, "hour"), (M, cM, 59, "minute"), (S, cS, 59, "second"), (u, cu, 999999, "microsecond")):
             if branch(z3.Or(t < 0, t > hi), not 0 <= c <= hi):
                 raise ValueError(f"{nm} must be in 0..{hi}")
-        lus = (days_from_civil(y, m, d) * 86400 + H * 3600 + M * 60 + S) * US + u
+        lus = (days * 86400 + H * 3600 + M * 60 + S) * US + u
         return mkdt(cls, lus, _fields_to_clus(cs), tzinfo)
 
     # -- representation
